@@ -171,11 +171,14 @@ class Network(Cached):
         self.silence_level: int = silence_level
         """higher -> less progress info"""
 
-        self._mut_A: int = 0
+        #  NOTE: subclasses re-run this constructor on existing objects
+        #  (e.g. `ClimateNetwork.set_threshold()`), which must not reset the
+        #  mutation counts, or cached measures would not be invalidated
+        self._mut_A: int = getattr(self, "_mut_A", 0)
         """mutation count tracking `self.adjcency`"""
-        self._mut_nw: int = 0
+        self._mut_nw: int = getattr(self, "_mut_nw", 0)
         """mutation count tracking `self.node_weights`"""
-        self._mut_la: int = 0
+        self._mut_la: int = getattr(self, "_mut_la", 0) + 1
         """mutation count tracking `self.graph.es`"""
 
         self.N: int = 0
